@@ -170,6 +170,17 @@ def run_case(case: dict) -> dict:
         subsets.append([])                 # no file named: nothing to report, exit 0
         for _ in range(2):
             subsets.append(rnd.sample(allf, rnd.randint(1, min(5, len(allf)))) + rnd.sample(dirs, min(1, len(dirs))))
+        # a symbolic link to a covered file is not a covered file: naming the link names nothing (and not its target)
+        targets = [f for f in ev["covered"] if (root / f).is_file() and not (root / f).is_symlink()]
+        if targets and not ev["crash"]:
+            lk = []
+            for n, tgt in enumerate(rnd.sample(targets, min(2, len(targets)))):
+                name = f"zz link {n}{Path(tgt).suffix}"
+                os.symlink(tgt, root / name)
+                lk.append(name)
+            subsets.append(lk[:1])
+            subsets.append(lk + rnd.sample(allf, min(2, len(allf))))
+            subsets.append(lk[-1:])
         ev["lintfile"] = []
         for si, F in enumerate(subsets):
             mode = si % 3
